@@ -1,7 +1,12 @@
-(* A small schema language for the byte formats of the VM's data containers, its encoder and
-   decoder, and the two generic theorems: decoding an encoding gives the value back (with any
-   suffix left untouched), and whatever the decoder accepts re-encodes to bytes that decode to the
-   same value with nothing left over. *)
+(* A schema language for the byte formats the VM reads and writes (stack inputs and outputs,
+   kernels, program info, the serialised AST and libraries), with its encoder and decoder.
+
+   The decoder runs on fuel (one unit per schema step) because the AST format is recursive; the
+   theorems in CodecProps.v quantify over the fuel.  Counts read from untrusted bytes are clamped
+   to what the remaining input can hold before the element loop runs (an element of a non-empty
+   schema takes at least one byte, so a larger count fails either way); this keeps the model
+   executable on hostile inputs, and the decoder still checks that it got exactly `count`
+   elements. *)
 From Coq Require Import ZArith List Bool Arith Lia.
 From MV Require Import Base.Field.
 Import ListNotations.
@@ -11,14 +16,22 @@ Definition byte := Z.
 
 Inductive schema : Type :=
 | SU8 | SU16 | SU32 | SU64
-| SFelt                      (* u64 little endian, must be < p *)
-| SSeq (count : schema) (elem : schema)   (* count (an integer schema) followed by that many elems *)
-| SPair (a b : schema).
+| SFelt                                   (* u64 little endian, must be < p *)
+| SRange (lo hi : Z) (s : schema)         (* an integer schema restricted to lo <= x <= hi *)
+| SUnit                                   (* no bytes *)
+| SSeq (count : schema) (elem : schema)   (* count (an integer schema), then that many elems *)
+| SArr (n : nat) (elem : schema)          (* exactly n elems, no count *)
+| SPair (a b : schema)
+| STag (tbl : list (Z * schema))          (* one tag byte, then the payload the table gives *)
+| SVar.                                   (* the recursive schema (AST nodes) *)
 
 Inductive value : Type :=
 | VN (n : Z)
+| VUnit
 | VList (l : list value)
-| VPair (a b : value).
+| VPair (a b : value)
+| VTag (t : Z) (v : value)
+| VRec (v : value).
 
 (* ---- little-endian integers ---------------------------------------------------------------- *)
 Fixpoint le_bytes (n : nat) (x : Z) : list byte :=
@@ -38,74 +51,78 @@ Definition is_byte (b : Z) : bool := (0 <=? b) && (b <? 256).
 Definition take (n : nat) (bs : list byte) : option (list byte * list byte) :=
   if Nat.leb n (length bs) then Some (firstn n bs, skipn n bs) else None.
 
-Lemma le_val_le_bytes n x : 0 <= x < 256 ^ Z.of_nat n -> le_val (le_bytes n x) = x.
-Proof.
-  revert x. induction n as [|n IH]; intros x Hx; cbn [le_bytes le_val].
-  - cbn in Hx. lia.
-  - rewrite IH.
-    + pose proof (Z.div_mod x 256 ltac:(lia)). lia.
-    + rewrite Nat2Z.inj_succ, Z.pow_succ_r in Hx by lia.
-      split; [apply Z.div_pos; lia | apply Z.div_lt_upper_bound; lia].
-Qed.
-
-Lemma le_bytes_length n x : length (le_bytes n x) = n.
-Proof. revert x; induction n; intros; cbn; auto. Qed.
-
-Lemma le_bytes_le_val bs : Forall (fun b => 0 <= b < 256) bs -> le_bytes (length bs) (le_val bs) = bs.
-Proof.
-  induction bs as [|b r IH]; intros H; [reflexivity|].
-  inversion H as [|? ? Hb Hr]; subst. cbn [length le_bytes le_val].
-  replace (b + 256 * le_val r) with (b + le_val r * 256) by ring.
-  rewrite Z_mod_plus_full, Z.mod_small by lia.
-  rewrite Z_div_plus_full by lia. rewrite Z.div_small by lia. rewrite Z.add_0_l.
-  rewrite IH by exact Hr. reflexivity.
-Qed.
-
-Lemma le_val_bound bs : Forall (fun b => 0 <= b < 256) bs -> 0 <= le_val bs < 256 ^ Z.of_nat (length bs).
-Proof.
-  induction bs as [|b r IH]; intros H; cbn [le_val length]; [cbn; lia|].
-  inversion H as [|? ? Hb Hr]; subst. specialize (IH Hr).
-  rewrite Nat2Z.inj_succ, Z.pow_succ_r by lia. lia.
-Qed.
-
 (* ---- integers of the schema language ---------------------------------------------------------- *)
-Definition int_width (s : schema) : option nat :=
-  match s with SU8 => Some 1%nat | SU16 => Some 2%nat | SU32 => Some 4%nat | SU64 | SFelt => Some 8%nat | _ => None end.
+Fixpoint int_width (s : schema) : option nat :=
+  match s with
+  | SU8 => Some 1%nat | SU16 => Some 2%nat | SU32 => Some 4%nat | SU64 | SFelt => Some 8%nat
+  | SRange _ _ s' => int_width s'
+  | _ => None
+  end.
 
-Definition int_ok (s : schema) (x : Z) : bool :=
+Fixpoint int_ok (s : schema) (x : Z) : bool :=
   match s with
   | SU8 => (0 <=? x) && (x <? 256)
   | SU16 => (0 <=? x) && (x <? 65536)
   | SU32 => (0 <=? x) && (x <? 4294967296)
   | SU64 => (0 <=? x) && (x <? 18446744073709551616)
   | SFelt => (0 <=? x) && (x <? P)
+  | SRange lo hi s' => (lo <=? x) && (x <=? hi) && int_ok s' x
   | _ => false
   end.
 
+Fixpoint lookup (t : Z) (tbl : list (Z * schema)) : option schema :=
+  match tbl with
+  | [] => None
+  | (t', s) :: r => if t =? t' then Some s else lookup t r
+  end.
+
+Section Codec.
+(* the schema SVar stands for *)
+Variable rec : schema.
+
 (* ---- well-typed values ----------------------------------------------------------------------- *)
-Fixpoint wt (s : schema) (v : value) {struct s} : bool :=
+Fixpoint wt (s : schema) (v : value) {struct v} : bool :=
   match s, v with
+  | SUnit, VUnit => true
   | SSeq c e, VList l =>
       match int_width c with
       | Some _ => int_ok c (Z.of_nat (length l)) && forallb (wt e) l
       | None => false
       end
+  | SArr n e, VList l => Nat.eqb (length l) n && forallb (wt e) l
   | SPair a b, VPair x y => wt a x && wt b y
-  | (SU8 | SU16 | SU32 | SU64 | SFelt), VN x => int_ok s x
+  | STag tbl, VTag t x =>
+      match lookup t tbl with Some s' => is_byte t && wt s' x | None => false end
+  | SVar, VRec x => wt rec x
+  | _, VN x => match int_width s with Some _ => int_ok s x | None => false end
   | _, _ => false
   end.
 
 (* ---- encoder ---------------------------------------------------------------------------------- *)
-Fixpoint enc (s : schema) (v : value) {struct s} : list byte :=
+Fixpoint enc (s : schema) (v : value) {struct v} : list byte :=
   match s, v with
   | SSeq c e, VList l =>
       match int_width c with
       | Some w => le_bytes w (Z.of_nat (length l)) ++ flat_map (enc e) l
       | None => []
       end
+  | SArr n e, VList l => flat_map (enc e) l
   | SPair a b, VPair x y => enc a x ++ enc b y
+  | STag tbl, VTag t x => match lookup t tbl with Some s' => t :: enc s' x | None => [] end
+  | SVar, VRec x => enc rec x
   | _, VN x => match int_width s with Some w => le_bytes w x | None => [] end
   | _, _ => []
+  end.
+
+(* fuel the decoder needs to rebuild a value: the height of the schema/value unfolding *)
+Fixpoint need (s : schema) (v : value) {struct v} : nat :=
+  match s, v with
+  | SSeq c e, VList l => S (list_max (map (need e) l))
+  | SArr n e, VList l => S (list_max (map (need e) l))
+  | SPair a b, VPair x y => S (Nat.max (need a x) (need b y))
+  | STag tbl, VTag t x => match lookup t tbl with Some s' => S (need s' x) | None => 1%nat end
+  | SVar, VRec x => S (need rec x)
+  | _, _ => 1%nat
   end.
 
 (* ---- decoder ---------------------------------------------------------------------------------- *)
@@ -132,22 +149,64 @@ Fixpoint dec_n (d : list byte -> option (value * list byte)) (n : nat) (bs : lis
             end
   end.
 
-Fixpoint dec (s : schema) (bs : list byte) {struct s} : option (value * list byte) :=
+(* every encoding of a value of this schema has at least one byte (a syntactic under-estimate;
+   SVar counts as possibly empty) *)
+Fixpoint nonempty (s : schema) : bool :=
   match s with
-  | SSeq c e =>
-      match dec_int c bs with
-      | Some (n, r) =>
-          (* the count is untrusted: every element needs at least one byte unless it is empty *)
-          match dec_n (dec e) (Z.to_nat n) r with
+  | SU8 | SU16 | SU32 | SU64 | SFelt => true
+  | SRange _ _ s' => match int_width s' with Some _ => true | None => false end
+  | SUnit => false
+  | SSeq c _ => match int_width c with Some _ => true | None => false end
+  | SArr n e => negb (Nat.eqb n 0) && nonempty e
+  | SPair a b => nonempty a || nonempty b
+  | STag _ => true
+  | SVar => false
+  end.
+
+(* the number of elements to try for a count n read from the input: when every element takes at
+   least one byte, more than (remaining bytes + 1) attempts cannot change the outcome *)
+Definition clamp (e : schema) (n : Z) (r : list byte) : nat :=
+  if nonempty e then Z.to_nat (Z.min n (Z.of_nat (length r) + 1)) else Z.to_nat n.
+
+Fixpoint dec (fuel : nat) (s : schema) (bs : list byte) {struct fuel} : option (value * list byte) :=
+  match fuel with
+  | O => None
+  | S f =>
+      match s with
+      | SUnit => Some (VUnit, bs)
+      | SSeq c e =>
+          match dec_int c bs with
+          | Some (n, r) =>
+              match dec_n (dec f e) (clamp e n r) r with
+              | Some (vs, r') => if Z.of_nat (length vs) =? n then Some (VList vs, r') else None
+              | None => None
+              end
+          | None => None
+          end
+      | SArr n e =>
+          match dec_n (dec f e) n bs with
           | Some (vs, r') => Some (VList vs, r')
           | None => None
           end
-      | None => None
+      | SPair a b =>
+          match dec f a bs with
+          | Some (x, r) => match dec f b r with Some (y, r') => Some (VPair x y, r') | None => None end
+          | None => None
+          end
+      | STag tbl =>
+          match bs with
+          | t :: r =>
+              if is_byte t then
+                match lookup t tbl with
+                | Some s' => match dec f s' r with Some (x, r') => Some (VTag t x, r') | None => None end
+                | None => None
+                end
+              else None
+          | [] => None
+          end
+      | SVar => match dec f rec bs with Some (x, r) => Some (VRec x, r) | None => None end
+      | _ => match dec_int s bs with Some (x, r) => Some (VN x, r) | None => None end
       end
-  | SPair a b =>
-      match dec a bs with
-      | Some (x, r) => match dec b r with Some (y, r') => Some (VPair x y, r') | None => None end
-      | None => None
-      end
-  | _ => match dec_int s bs with Some (x, r) => Some (VN x, r) | None => None end
   end.
+
+End Codec.
